@@ -223,6 +223,7 @@ pub fn gen_opts(rng: &mut Rng, case: bool) -> BuildOpts {
         dense_depth: *rng.pick(&[None, None, Some(0), Some(1), Some(2), Some(3)]),
         byte_classes: rng.chance(3, 4),
         prefilter: rng.chance(3, 5),
+        via_ref: surface != Surface::Top && rng.chance(1, 4),
     }
 }
 
@@ -606,6 +607,7 @@ pub fn gen_big(prop: &str, seed: u64, idx: u64) -> (StreamScenario, GenInfo) {
         dense_depth: None,
         byte_classes: true,
         prefilter: r.chance(1, 2),
+        via_ref: false,
     };
     let mode = r.below(7);
     let mut reads = Vec::new();
